@@ -90,6 +90,57 @@ def build(ck):
     return exe_lib, exe_tr
 
 
+def build_cvt(ck, flags=('-O1', '-g', '-DNDEBUG')):
+    flags = list(flags)
+    objs = ck.libmp_objects(flags=tuple(flags))
+    src = os.path.join(VERIF, 'harness', 'h_plcvt.cc')
+    return ck.link('h_plcvt', ck.objects([src], flags=flags, tag='c13cvt') + objs)
+
+
+def converter_stage(ck):
+    """the real FuncConConverter_MIP / PowConstExponentConverter_MIP / PLConverter_MIP on a recording model converter"""
+    exe = build_cvt(ck)
+    outp = os.path.join(BUILD, 'c13.cvt.out')
+    rc, err = run_exe(exe, [ck.tier, ck.seed], outp, timeout=300 if ck.tier == 'quick' else 900)
+    if rc != 0:
+        ck.add_violation('harness-crashed:plcvt', 'converter-level harness exited with %d: %s' % (rc, err), {'cmd': '%s %s %d' % (exe, ck.tier, ck.seed)}, found_input=False)
+    HC, n_hr, n_exact, cls_hist, nq = {}, 0, 0, {}, 0
+    for l in open(outp):
+        p = l.split()
+        if not p:
+            continue
+        if p[0] == 'HC':
+            HC[p[1]] = l.strip()
+        elif p[0] == 'HQ':
+            nq += 1
+            if p[-1] != 'ok':
+                ck.add_violation('powconv:decomposition', 'PowConstExponentConverter_MIP: %s' % l.strip(), {'line': l.strip(), 'how': '%s %s %d' % (exe, ck.tier, ck.seed)})
+        elif p[0] == 'HR':
+            n_hr += 1
+            cid, fn, st = p[1], p[2], p[3]
+            case = HC.get(cid, 'direct PLConstraint case %s' % cid)
+            rp = {'case': case, 'result': l.strip(), 'how': 'build/bin/h_plcvt-* %s %d  (line HR %s)' % (ck.tier, ck.seed, cid)}
+            if st != 'ok':
+                ck.add_violation('cvt-error:%s:%s' % (fn, st), 'converter raised on: %s' % case, rp)
+                continue
+            kv = dict(x.split('=', 1) for x in p[4:] if '=' in x)
+            if kv.get('exact') != 'ok':
+                ck.add_violation('sos2:%s' % kv.get('exact'), 'PLConstraint -> SOS2 (PLConverter_MIP): the encoded function differs from the PL function (%s) for %s; case: %s'
+                                 % (kv.get('exact'), fn, case), rp)
+            else:
+                n_exact += 1
+            c = kv.get('cls', 'within')
+            cls_hist[c] = cls_hist.get(c, 0) + 1
+            if c != 'within':
+                ck.add_violation('tol:%s:%s' % (fn, c), 'through the converter (%s): |f - encoded PL| is %s x the tolerance at x=%s (f=%s, encoded=%s, segment width %s); final argument bounds %s'
+                                 % (case, kv.get('ratio'), kv.get('x'), kv.get('f'), kv.get('enc'), kv.get('w'), [x for x in p if x.startswith('arg[')]), rp)
+    if n_hr < 100 or nq < 20:
+        ck.add_violation('plcvt-stage-missing', 'converter-level stage produced only %d results / %d power cases' % (n_hr, nq), {}, found_input=False)
+    ck.cov['converter_stage'] = {'cases': len(HC), 'pl_to_sos2_results': n_hr, 'encodings_exactly_equal_to_pl': n_exact,
+                                 'tolerance_classes': cls_hist, 'power_converter_cases': nq}
+    return n_hr
+
+
 def run_exe(exe, args, outp, env=None, timeout=400):
     e = dict(os.environ)
     if env:
@@ -116,7 +167,140 @@ def oracle_sig(c, e):
     return 'tol:%s:%s' % (c[2], cls)
 
 
+ANCHORS = ['src/mp/flat/piecewise_linear.cpp', 'include/mp/flat/redef/MIP/core/lin_approx_core.h',
+           'include/mp/flat/redef/MIP/lin_approx.h', 'include/mp/flat/redef/MIP/power_const.h',
+           'include/mp/flat/redef/MIP/piecewise_linear.h', 'include/mp/flat/constr_general.h',
+           'include/mp/flat/constr_functional.h']
+
+
+def coverage_mode(ck):
+    """VERIF_COVERAGE=1: gcov line/branch coverage of the anchored files under the quick-tier input stream"""
+    from concurrent.futures import ThreadPoolExecutor
+    import shutil
+    cov = os.path.join(BUILD, 'cov')
+    shutil.rmtree(cov, ignore_errors=True)
+    os.makedirs(cov)
+    inc = ['-I' + os.path.join(REPO, 'include'), '-I' + os.path.join(REPO, 'src'), '-I' + os.path.join(VERIF, 'harness')]
+    defs = ['-DMP_DATE=20240320', '-DMP_SYSINFO="Linux x86_64"', '-DMP_USE_ATOMIC', '-DMP_USE_HASH', '-DMP_USE_UNIQUE_PTR', '-DAMPL_MP_VERIF', '-DNDEBUG']
+    base = ['g++', '-std=c++17', '-w', '-O0', '-g', '--coverage'] + defs + inc
+    tus = [(os.path.join(REPO, s_), 'mp_' + os.path.basename(s_).replace('.', '_'), []) for s_ in ck.LIBMP_SRC]
+    hp = os.path.join(VERIF, 'harness', 'h_pl.cc')
+    tus += [(hp, 'h_pl_lib', []), (hp, 'h_pl_trace', ['-DPL_TRACE']), (os.path.join(VERIF, 'harness', 'h_plcvt.cc'), 'h_plcvt', [])]
+
+    def comp(t):
+        src, name, extra = t
+        rc, out, err = sh(base + extra + ['-c', src, '-o', os.path.join(cov, name + '.o')], timeout=3000)
+        if rc != 0:
+            raise RuntimeError(err[-2000:])
+        return os.path.join(cov, name + '.o')
+    with ThreadPoolExecutor(max_workers=12) as ex:
+        objs = list(ex.map(comp, tus))
+    lib = [o for o in objs if os.path.basename(o).startswith('mp_')]
+
+    def link(name, mine, libobjs):
+        exe = os.path.join(cov, name)
+        rc, out, err = sh(['g++', '--coverage'] + mine + libobjs + ['-o', exe, '-ldl'], timeout=1800)
+        if rc != 0:
+            raise RuntimeError(err[-2000:])
+        return exe
+    e1 = link('x_lib', [os.path.join(cov, 'h_pl_lib.o')], lib)
+    e2 = link('x_trace', [os.path.join(cov, 'h_pl_trace.o')], [o for o in lib if 'piecewise_linear' not in o])
+    e3 = link('x_cvt', [os.path.join(cov, 'h_plcvt.o')], lib)
+    for e, extra in ((e1, {}), (e2, {'PL_TRACE_CAP': '8000', 'PL_TRACE_TOTAL': '500000'}), (e3, {})):
+        run_exe(e, ['quick', ck.seed], os.path.join(cov, os.path.basename(e) + '.out'), env=extra, timeout=1500)
+    # gcov on the TUs that contain the anchored code
+    gdir = os.path.join(cov, 'gcov')
+    os.makedirs(gdir)
+    lines, branches, funcs, text = {}, {}, {}, {}
+    for name in (('mp_piecewise_linear_cpp', 'h_pl_trace', 'h_pl_lib') if os.environ.get('C13_COV_BEFORE') else ('mp_piecewise_linear_cpp', 'h_pl_trace', 'h_plcvt', 'h_pl_lib')):
+        d = os.path.join(gdir, name)
+        os.makedirs(d)
+        sh(['gcov-12', '-b', '-c', '-p', '-o', cov, os.path.join(cov, name + '.o')], cwd=d, timeout=600)
+        for fn_ in os.listdir(d):
+            cur = None
+            for a in ANCHORS:
+                if fn_.endswith(a.replace('/', '#') + '.gcov'):
+                    cur = a
+            if not cur:
+                continue
+            lno = 0
+            for l in open(os.path.join(d, fn_), errors='replace'):
+                m = re.match(r'\s*([0-9]+\*?|#####|=====|-):\s*([0-9]+):(.*)', l)
+                if m:
+                    lno = int(m.group(2))
+                    if lno == 0:
+                        continue
+                    text[(cur, lno)] = m.group(3)
+                    if m.group(1) != '-':
+                        hit = m.group(1)[0].isdigit() and int(m.group(1).rstrip('*')) > 0
+                        lines[(cur, lno)] = lines.get((cur, lno), False) or hit
+                    continue
+                m = re.match(r'branch\s+([0-9]+) (taken ([0-9]+)|never executed)', l)
+                if m and lno:
+                    k = (cur, lno, int(m.group(1)))
+                    hit = bool(m.group(3)) and int(m.group(3)) > 0
+                    branches[k] = branches.get(k, False) or hit
+                    continue
+                m = re.match(r'function (\S+) called ([0-9]+)', l)
+                if m:
+                    funcs[(cur, m.group(1))] = funcs.get((cur, m.group(1)), 0) + int(m.group(2))
+    # demangle + aggregate template instantiations by method name
+    names = sorted({f for (_, f) in funcs})
+    rc, dem, _ = sh(['c++filt'], input='\n'.join(names) + '\n')
+    dmap = dict(zip(names, dem.split('\n')))
+
+    def short(n):
+        n = re.sub(r'\(.*$', '', dmap.get(n, n))
+        n = re.sub(r'<[^<>]*(<[^<>]*>[^<>]*)*>', '<>', n)
+        return n
+    agg = {}
+    for (a, f), c in funcs.items():
+        k = (a, short(f))
+        agg[k] = agg.get(k, 0) + c
+    res = {'files': {}, 'seed': ck.seed}
+    md = ['# C13 coverage of the anchored code under the quick-tier input stream (VERIF_COVERAGE=1)', '',
+          'TUs measured: libmp `piecewise_linear.cpp` object (through `mp::PLApproximate`), `h_pl.cc -DPL_TRACE` (textual include of',
+          '`piecewise_linear.cpp`: tracing subclass + synthetic records), `h_plcvt.cc` (instantiates the header-only converters).',
+          'A line / branch counts as covered if any of these TUs executed it. `-O0 --coverage`, gcov-12 `-b -c`.', '',
+          '| file | lines | line cov | branches | branch cov |', '|---|---|---|---|---|']
+    tl = tb = hl = hb = 0
+    for a in ANCHORS:
+        ls = [v for (f, _), v in lines.items() if f == a]
+        bs = [v for (f, _, _), v in branches.items() if f == a]
+        res['files'][a] = {'lines': len(ls), 'lines_hit': sum(ls), 'branches': len(bs), 'branches_hit': sum(bs)}
+        if a != 'include/mp/flat/constr_general.h' and a != 'include/mp/flat/constr_functional.h':
+            tl += len(ls); hl += sum(ls); tb += len(bs); hb += sum(bs)
+        md.append('| %s | %d | %s | %d | %s |' % (a, len(ls), ('%.1f%%' % (100.0 * sum(ls) / len(ls))) if ls else 'n/a (no code instantiated)', len(bs),
+                                                 ('%.1f%%' % (100.0 * sum(bs) / len(bs))) if bs else 'n/a'))
+    res['anchor_line_cov'] = round(100.0 * hl / max(tl, 1), 1)
+    res['anchor_branch_cov'] = round(100.0 * hb / max(tb, 1), 1)
+    md += ['', 'Mechanism files (piecewise_linear.cpp, lin_approx*.h, power_const.h, piecewise_linear.h) together: line %.1f%%, branch %.1f%%.'
+           % (res['anchor_line_cov'], res['anchor_branch_cov']), '', '## functions never called (template instantiations aggregated)', '']
+    for (a, f), c in sorted(agg.items()):
+        if c == 0 and a not in ('include/mp/flat/constr_general.h', 'include/mp/flat/constr_functional.h'):
+            md.append('* `%s` — %s' % (f, a))
+    md += ['', '## uncovered executable lines', '']
+    for (a, ln), v in sorted(lines.items()):
+        if not v and a not in ('include/mp/flat/constr_general.h', 'include/mp/flat/constr_functional.h'):
+            md.append('* %s:%d `%s`' % (os.path.basename(a), ln, text.get((a, ln), '').strip()[:110]))
+    md += ['', '## uncovered branches (line, gcov branch index)', '']
+    byline = {}
+    for (a, ln, b), v in sorted(branches.items()):
+        if not v and a not in ('include/mp/flat/constr_general.h',):
+            byline.setdefault((a, ln), []).append(b)
+    for (a, ln), bl in sorted(byline.items()):
+        md.append('* %s:%d [%s] `%s`' % (os.path.basename(a), ln, ','.join(map(str, bl)), text.get((a, ln), '').strip()[:100]))
+    os.makedirs(os.path.join(VERIF, 'design_notes', 'coverage'), exist_ok=True)
+    sfx = '.before' if os.environ.get('C13_COV_BEFORE') else ''
+    open(os.path.join(VERIF, 'design_notes', 'coverage', 'C13%s.raw.md' % sfx), 'w').write('\n'.join(md) + '\n')
+    json.dump(res, open(os.path.join(VERIF, 'design_notes', 'coverage', 'C13%s.json' % sfx), 'w'), indent=1)
+    ck.log('coverage: anchors line %.1f%% branch %.1f%% -> design_notes/coverage/C13.raw.md' % (res['anchor_line_cov'], res['anchor_branch_cov']))
+    ck.cov.update({'obligations': 0, 'discharged': 0, 'checker_cmd': 'coverage mode', 'coverage_mode': res})
+
+
 def run(ck):
+    if os.environ.get('VERIF_COVERAGE') == '1':
+        return coverage_mode(ck)
     ck.level = 'proof'
     proof_ok, failing = ck.proof_stage('MpVerif.C13.Props', 'MpVerif/C13/Props.lean', 'C13_',
                                         ['MpVerif/C13/*.lean'], expect_min=10)
@@ -409,9 +593,58 @@ def run(ck):
                              {'theorem': fdecl, 'module': 'MpVerif.C13.Props',
                               'searched': '%d implementation cases' % len(O)}, found_input=False)
 
+    n_cvt = converter_stage(ck)
+
+    # which arms of the Lean model the replayed (bit-exactly agreeing) stream exercises: inferred from the oracle tables
+    # and outputs of the replayed cases (the driver itself has no counters: it contains no logic of its own)
+    arms = {}
+
+    def bump(k, n=1):
+        arms[k] = arms.get(k, 0) + n
+    replayed = [ref for kind, ref in ids if kind == 'C']
+    for i in replayed:
+        c, r, t, o = Ct[i], R[i], T[i], Ot[i]
+        bump('status:' + o[2])
+        bump('record:periodic' if r[9] == '1' else 'record:non-periodic')
+        if r[8] == '1':
+            bump('clipDomain:monotone->clipVals')
+        ent = t[3:]
+        for j in range(0, len(ent) - 3, 4):
+            k, idx, a, v = ent[j], ent[j + 1], ent[j + 2], ent[j + 3]
+            fv = h2f(v)
+            if k == 's' and fv == 0:
+                bump('initStep:|f2|<1e-100 fallback')
+            if k == 's' and abs(fv) == float('inf'):
+                bump('initStep:f2 infinite')
+            if k == 'd' and abs(fv) == float('inf'):
+                bump('maxErrRel:f\' infinite (OV.lt/le on inf)')
+            if k == 'j' and fv != fv:
+                bump('addCand:inverse_1st NaN ignored')
+            if k == 'i' and idx == '-100' and abs(fv) == float('inf'):
+                bump('clipVals:infinite pre-image')
+            if k == 'i' and idx != '-100' and h2f(a) in (1.0, -1.0):
+                bump('maxErrRel:pre-image of %+d' % int(h2f(a)))
+        if o[2] == 'ok':
+            n = int(o[13])
+            if n == 1:
+                bump('run:trivial or merged single point')
+            if c[8] == '1' and o[7] == '0':
+                import math
+                N = math.floor(h2f(o[4])) - math.ceil(h2f(o[3])) + 1
+                bump('considerIntegrality:shortcut taken' if 0 <= N and n <= N and n > 0 and all(h2f(x) == math.floor(h2f(x)) for x in o[14:14 + n]) else 'considerIntegrality:not taken')
+                if 0 < n < N and all(h2f(x) == math.floor(h2f(x)) for x in o[14:14 + n]):
+                    bump('addPoint:equal-ordinate merge (integer shortcut)')
+            if c[2] == 'syn5':
+                bump('addPoint:equal-ordinate merge (plateau record)')
+            if c[2] == 'syn6':
+                bump('cmpErr:error == tolerance (returns 0)')
+            if c[2] == 'syn4':
+                bump('addPoint:skip (default breakpoints closer than 1e-4)')
+    ck.cov['model_arms_exercised_by_replayed_cases'] = arms
+
     # ---- evidence
     n_run = sum(v for k, v in agree.items() if k != 'arith')
-    ck.cov['evaluations'] = len(O) + len(Ot) + len(A)
+    ck.cov['evaluations'] = len(O) + len(Ot) + len(A) + n_cvt
     ck.cov['traces_validated_against_impl'] = n_run
     ck.cov['distinct_nontrivial'] = sum(1 for i, o in Ot.items() if o[2] == 'ok' and int(o[13]) >= 3)
     ck.cov['rule'] = 'cases of the real generator that end with status ok and at least 3 breakpoints (each a distinct function/parameter/interval/tolerance/integrality tuple)'
@@ -425,6 +658,12 @@ def run(ck):
     for i, c in C.items():
         fn_hist[c[2]] = fn_hist.get(c[2], 0) + 1
     npts = sorted(int(o[13]) for o in O.values() if o[2] == 'ok')
+    try:
+        cj = json.load(open(os.path.join(VERIF, 'design_notes', 'coverage', 'C13.json')))
+        ck.cov['coverage'] = {'anchor_line_cov': cj['anchor_line_cov'], 'anchor_branch_cov': cj['anchor_branch_cov'],
+                              'note': 'measured in the last VERIF_COVERAGE=1 run (design_notes/coverage/C13.md), not recomputed here'}
+    except Exception:
+        pass
     ck.cov['generator'] = {'cases_per_function': fn_hist, 'status_histogram': hist_status,
                            'integer_argument_cases': sum(1 for c in C.values() if c[8] == '1'),
                            'periodic_outputs': sum(1 for o in O.values() if o[2] == 'ok' and o[7] == '1'),
